@@ -18,9 +18,9 @@ namespace Jade.Sys
 
 theorem live0_step {s s' : Sys} {op : Op} (hr : RoleInv s) (hi : Live0 s) (h : stepP s op = some s') :
     Live0 s' := by
-  obtain ⟨c_noOrphan, c_plain⟩ := live0_step_a hr hi h
-  obtain ⟨c_atLoaded, c_collected⟩ := live0_step_b hr hi h
-  obtain ⟨c_persisted, c_noPend⟩ := live0_step_c hr hi h
+  obtain ⟨c_noOrphan, c_persisted⟩ := live0_step_a hr hi h
+  obtain ⟨c_plain, c_atLoaded⟩ := live0_step_b hr hi h
+  obtain ⟨c_collected, c_noPend⟩ := live0_step_c hr hi h
   exact ⟨c_noOrphan, c_plain, c_atLoaded, c_collected, c_persisted, c_noPend⟩
 
 end Jade.Sys
